@@ -56,5 +56,7 @@ impl<T: Trace + 'static> Default for Pending<T> {
 }
 
 pub fn identity_hash<T, H: Hasher>(v: &Cc<T>, hasher: &mut H) {
+	#[cfg(jrsonnet_verif)]
+	hasher.write_usize(jrsonnet_interner::verif::hash_salt());
 	hasher.write_usize(addr_of!(**v) as usize);
 }
